@@ -27,11 +27,15 @@ def run_worker(cases):
     return None
 
 
-def ignore_texts(comps_rel):
-    """Manifest texts for a level whose relative start path is comps_rel (list of components)"""
+def ignore_texts(comps_rel, own=None):
+    """Manifest texts for a level whose relative start path is comps_rel (list of components); own = the name of the level's own directory"""
     rel = '/'.join(comps_rel)
     first = comps_rel[0] if comps_rel else 'x'
     outs = ['', 'DATA other 0\n']
+    if own:
+        # IGNORE entries that would match the start path as seen from the directory ABOVE this level (which may have no Manifest): they say
+        # nothing about the start path as seen from here
+        outs += [f'IGNORE {own}\n', f'IGNORE {own}/{rel}\n' if rel else f'IGNORE {own}/x\n']
     if rel:
         outs += [f'IGNORE {rel}\n', f'IGNORE {first}\n', f'IGNORE {rel}/\n', f'IGNORE {first}x\n', f'IGNORE {rel}/deeper\n',
                  f'IGNORE {first[:-1] or "q"}\n', f'DATA {rel} 0\nIGNORE {rel}\n', f'IGNORE sibling\nIGNORE {first}\n',
@@ -55,7 +59,7 @@ def c15(ctx):
         for j in range(1, DEPTH + 1):
             st = lv_states[j - 1]
             rel = [f'l{d}' for d in range(j + 1, start + 1)]
-            texts = ignore_texts(rel)
+            texts = ignore_texts(rel, f'l{j}')
             # (levels that IGNORE nothing may still say anything else, e.g. carry a TIMESTAMP like the top-level Manifest of a repository kept inside a larger tree)
             text = texts[ign_idx % len(texts)] if j == ign_level else r.choice(['', 'DATA other 0\n', 'TIMESTAMP 2020-01-01T00:00:00Z\n', 'TIMESTAMP 2021-02-03T04:05:06Z\nDATA other 0\n'])
             files = {}
